@@ -1101,6 +1101,12 @@ func replayFn(c *core.Ctx, b *Built, p *valPayload) ([]finding, error) {
 	}
 	c.Add("evaluations", 1)
 	key := hexs(p.Req) + "/" + hexs(p.Res1)
+	if b.Corpus.Sanity && strings.Contains(r.Steps[0].Err, "min object size") {
+		// the request itself is refused by the constant-4 length sanity rule (C01's known finding):
+		// no typed request, so no result transcoder to judge
+		c.Add("requests_refused_by_length_sanity", 1)
+		return nil, nil
+	}
 	if r.Steps[0].Err != "" || r.Steps[0].Panic != "" {
 		return []finding{{"fn", key, "request rejected: " + r.Steps[0].Err + r.Steps[0].Panic}}, nil
 	}
